@@ -123,9 +123,20 @@ func init() {
 	})
 }
 
+// the scope layer under concrete contracts: lookups walk the chain innermost first, def writes the
+// given scope only, parameter binding (positional, & rest, arity errors)
+var envRoots = []string{"(*env.Env).Find", "(*env.Env).FindNT", "(*env.Env).Get", "(*env.Env).GetNT", "(*env.Env).Set", "(*env.Env).SetNT",
+	"env._newSubordinateEnv", "env._newSubordinateEnvWithBinds", "env.NewSubordinateEnv", "env.NewSubordinateEnvWithBinds"}
+
 func runC01(c *CheckCtx) {
 	jobs := c.evalJobs(evalRoots)
+	jobs = append(jobs, c.jobsFor(envRoots, func(f *ssa.Function) *Job {
+		return &Job{Fn: f, PanicMode: "ignore", NoTimeouts: true, LockMode: true}
+	})...)
 	c.runJobs(jobs, func(o *Obligation) bool {
+		if strings.HasPrefix(o.Fn, "env.") || strings.HasPrefix(o.Fn, "(*env.") {
+			return o.Kind == "post" || o.Kind == "decreases"
+		}
 		if !keepEval(o) {
 			return false
 		}
